@@ -447,3 +447,13 @@ H_CRASH_AECFG = {"fn": "vh_crash_ae_config", "what": "appendEntries cutting / re
                  "covers": ["crash.aeconfig.before-truncation", "crash.aeconfig.truncated", "crash.aeconfig.new-config-stored"]}
 CHECKS["C10"]["harnesses"].append(H_CRASH_AECFG)
 CHECKS["C07"]["harnesses"].append(H_CRASH_AECFG)
+H_SNAPSESSION = {"fn": "vh_snapshot_session", "what": "two real objects, compacted leader: replicateTo finds no previous entry, sendLatestSnapshot ships the newest snapshot to the follower's real installSnapshot (real FSM goroutine), then AppendEntries from the snapshot boundary until caught up; "
+                 "follower FSM = one restore + the leader's committed Command entries above the snapshot, in order", "bounds": "W=3: leader snapshot at base+1 and 1-2 entries above it (Command/Noop), follower entirely below the snapshot (empty log, snapshot at base), MaxAppendEntries in {1,2}, at most 2W+3 AppendEntries (checked), one InstallSnapshot (checked)",
+                 "covers": ["snapsession.done", "snapsession.fed-fsm"], "opts": {"max_paths": 200000}}
+H_SNAPSESSION_THOROUGH = dict(H_SNAPSESSION, quick={"skip": True})
+CHECKS["C12"]["harnesses"].append(H_SNAPSESSION)
+CHECKS["C11"]["harnesses"].append(H_SNAPSESSION)
+for p in ["C02", "C04", "C05", "C01"]:
+    CHECKS[p]["harnesses"].append(H_SNAPSESSION_THOROUGH)
+CHECKS["C12"]["explanation"] += " SNAPSHOT SESSION: a compacted leader's replicateTo against a real lagging follower: one InstallSnapshot, then AppendEntries from the snapshot boundary, until caught up."
+CHECKS["C12"]["outside"] = "election liveness within a bounded number of timeouts (randomised timers; not decided); sessions are bounded to W=2/3 windows, a freshly elected or compacted leader and one follower"
